@@ -4,6 +4,7 @@ import PlasVerif.Proofs.EnumLists
 import PlasVerif.Proofs.Format
 import PlasVerif.Proofs.Untouched
 import PlasVerif.Proofs.TrimLeft
+import PlasVerif.Proofs.Lexer
 /-!
 # C08 — Counters and automatic numbers follow LaTeX's numbering rules
 
@@ -348,10 +349,26 @@ theorem float_numbers_standard (thes : TheEnv) (s : Store) (ctr : Name) (k cn fn
       .ok (if cn = 0 then toString fn else toString cn ++ "." ++ toString fn) := by
   simp only [floatFormatsB, Bool.and_eq_true, beq_iff_eq] at hf
   obtain ⟨⟨h1, h2⟩, h3⟩ := hf
-  refine PlasVerif.Proofs.TrimLeft.float_number thes s ctr k cn fn hctr ?_ h3 hcv hfv
+  refine PlasVerif.Proofs.TrimLeft.float_number thes s ctr k cn fn (by rcases hctr with h | h <;> simp [h]) ?_ h3 hcv hfv
   rcases hctr with rfl | rfl
   · exact h1
   · exact h2
+
+/-- The same for equations of the book class (`\theequation = \thechapter.\arabic{equation}` with `trimLeft`, after the
+    repair recorded in known_findings.txt): `<chapter>.<n>` in a chapter, plain `<n>` before the first one. -/
+theorem book_equation_number (thes : TheEnv) (s : Store) (k cn fn : Nat)
+    (hl : thes.lookup "theequation" = some { pieces := [.ref "thechapter" none, .lit ".", .ref "equation" none], trimLeft := true })
+    (hc : thes.lookup "thechapter" = some { pieces := [.ref "chapter" none], trimLeft := false })
+    (hcv : valD s "chapter" = (cn : Int)) (hfv : valD s "equation" = (fn : Int)) :
+    evalThe (k + 2) thes s "theequation" =
+      .ok (if cn = 0 then toString fn else toString cn ++ "." ++ toString fn) :=
+  PlasVerif.Proofs.TrimLeft.float_number thes s "equation" k cn fn (by simp) hl hc hcv hfv
+
+/-- the regenerated book table has that equation format -/
+example : (initSt bookCounters bookThes 2).thes.lookup "theequation" =
+    some { pieces := [.ref "thechapter" none, .lit ".", .ref "equation" none], trimLeft := true } := by decide +kernel
+example : (evalThe 23 (initSt bookCounters bookThes 2).thes [⟨"chapter", none, 0⟩, ⟨"equation", none, 3⟩] "theequation").toOption
+    = some "3" := by decide +kernel
 
 /-- the regenerated book and article tables have these float formats (kernel-checked on the current source), and the
     model's budget is at least 2 -/
@@ -369,6 +386,138 @@ example : (evalThe 23 (initSt bookCounters bookThes 2).thes [⟨"chapter", none,
     = some "100.20" := by decide +kernel
 example : (evalThe 23 (initSt articleCounters articleThes 2).thes [⟨"chapter", none, 0⟩, ⟨"figure", none, 10⟩] "thefigure").toOption
     = some "10" := by decide +kernel
+
+/-- The lexer of the model (the two regex passes of `TheCounter.invoke`, `Model.splitFormat`) applied to the raw
+    `format` strings of the class files gives exactly the `\the…` table the theorems above are about (which the harness
+    obtained with Python's `re`): kernel-checked on the regenerated tables of book and article. -/
+theorem class_formats_split (d : Int) :
+    (initSt bookCounters bookThes d).thes =
+      bookFormats.map (fun e => ("the" ++ e.1, { pieces := splitFormat e.2.1, trimLeft := e.2.2 })) ∧
+    (initSt articleCounters articleThes d).thes =
+      articleFormats.map (fun e => ("the" ++ e.1, { pieces := splitFormat e.2.1, trimLeft := e.2.2 })) := by
+  have h1 : (initSt bookCounters bookThes 0).thes =
+      bookFormats.map (fun e => ("the" ++ e.1, { pieces := splitFormat e.2.1, trimLeft := e.2.2 })) := by decide +kernel
+  have h2 : (initSt articleCounters articleThes 0).thes =
+      articleFormats.map (fun e => ("the" ++ e.1, { pieces := splitFormat e.2.1, trimLeft := e.2.2 })) := by decide +kernel
+  exact ⟨h1, h2⟩
+
+example : splitFormat "${thechapter}.${section}" = [.ref "thechapter" none, .lit ".", .ref "section" none] := by decide +kernel
+example : splitFormat "$part-${ a.Roman }${x.}" = [.ref "part" none, .lit "-", .ref "a" (some "Roman"), .lit "${x.}"] := by
+  decide +kernel
+
+/-- **The format lexer reads back what was spelled.**  For every well-formed list of items (any length; names and
+    representations non-empty words, literal text non-empty, `$`-free and not split in two) the two regex passes of
+    `TheCounter.invoke`, as modelled by `splitFormat`, turn the spelled format `${name}` / `${name.repr}` / text
+    into exactly those items: no reference is missed, none invented, no character of the literal text lost. -/
+theorem format_lexer_roundtrip (items : List FItem) (h : wfItems items = true) :
+    splitFormat (String.ofList (renderFormat items)) = items.map FItem.toPiece :=
+  PlasVerif.Proofs.Lexer.split_render items h
+
+example : wfItems [.ref "thesection".toList none, .text ".".toList, .ref "subsection".toList (some "Roman".toList)] = true ∧
+    String.ofList (renderFormat [.ref "thesection".toList none, .text ".".toList, .ref "subsection".toList (some "Roman".toList)])
+      = "${thesection}.${subsection.Roman}" := by decide +kernel
+
+/-! ## entry points a user calls directly -/
+
+/-- `\arabic{c}`, `\roman{c}`, `\Roman{c}`, `\alph{c}`, `\Alph{c}` in running text print the representation of the
+    current value and change no value (a counter that did not exist is created with value 0, which is what was read). -/
+theorem show_prints_representation (st st' : St) (fmt : String) (c : Name)
+    (h : step st (.show fmt c) = .ok st') :
+    ∃ r, represent (valD st.store c) fmt = .ok r ∧ st'.outs = ⟨"show", some r⟩ :: st.outs ∧
+      (∀ x, valD st'.store x = valD st.store x) ∧ st'.thes = st.thes := by
+  simp only [step, showRep] at h
+  cases hr : represent (valD st.store c) fmt with
+  | error e => rw [hr] at h; cases h
+  | ok r =>
+    rw [hr] at h
+    simp only [Except.ok.injEq] at h; subst h
+    refine ⟨r, rfl, rfl, fun x => ?_, rfl⟩
+    simp only [valD, PlasVerif.Proofs.EnumLists.val_ensure]
+    cases hx : val st.store x with
+    | some v => rfl
+    | none => by_cases hxc : x = c <;> simp [hxc]
+
+/-- … in particular `\Roman{c}` prints the standard numeral of every value. -/
+theorem show_roman_standard (st st' : St) (c : Name) (n : Nat) (hv : valD st.store c = (n : Int))
+    (h : step st (.show "Roman" c) = .ok st') : st'.outs = ⟨"show", some (roman n)⟩ :: st.outs := by
+  obtain ⟨r, hr, ho, _⟩ := show_prints_representation st st' "Roman" c h
+  rw [hv, roman_standard] at hr
+  rw [ho, ← Except.ok.inj hr]
+
+example : ((step (initSt articleCounters articleThes 2) (.show "Roman" "section")).toOption.map (·.outs)) =
+    some [⟨"show", some ""⟩] := by decide +kernel
+
+/-- After `\renewcommand{\thec}{body}` a numbered object of `c` prints the nested substitution of the *user's* body
+    (literal text, `\arabic{..}`-style calls, other `\the…` macros), evaluated in the stepped store - whatever the
+    class had defined for `\thec`, and without any `trimLeft`. -/
+theorem renewed_the_is_used (st st1 st2 : St) (c : Name) (body : List Piece) (tag : String) (level : Int)
+    (hc : c ≠ "") (hlevel : st.secnumdepth ≥ level ∨ level > endSectionsLevel)
+    (h1 : step st (.renewThe c body) = .ok st1)
+    (h2 : step st1 (.construct tag c false level) = .ok st2) :
+    ∃ parts, Subst st1.thes st2.store ("the" ++ c) body parts ∧
+      st2.outs = ⟨tag, some (String.join parts)⟩ :: st.outs := by
+  simp only [step, Except.ok.injEq] at h1
+  have hsnd : st1.secnumdepth = st.secnumdepth := by rw [← h1]
+  have hthes : st1.thes = ("the" ++ c, { pieces := body, trimLeft := false }) :: st.thes := by rw [← h1]
+  have houts : st1.outs = st.outs := by rw [← h1]
+  obtain ⟨s, r, _, hs, hr, ho⟩ := numbered_object_prints_the st1 st2 tag c level hc (by rw [hsnd]; exact hlevel) h2
+  obtain ⟨d, parts, hl, hsub, rfl⟩ := PlasVerif.Proofs.Format.evalThe_sound _ _ _ _ _ hr
+  rw [hthes] at hl
+  simp only [List.lookup_cons, beq_self_eq_true, Option.some.injEq] at hl
+  subst hl
+  exact ⟨parts, by rw [hs]; exact hsub, by rw [ho, houts]; simp [finish]⟩
+
+example : ((run (initSt articleCounters articleThes 2)
+      [.construct "section" "section" false 1, .renewThe "subsection" [.macro "thesection", .lit "-", .call "Roman" "subsection"],
+       .construct "subsection" "subsection" false 2, .construct "subsection" "subsection" false 2]).toOption.map
+        (·.outs.reverse.map (·.ref))) = some [some "1", some "1-I", some "1-II"] := by decide +kernel
+
+/-- `\appendix` wins over an earlier `\renewcommand` of the unit's `\the…` (LaTeX: `\gdef`). -/
+theorem appendix_overrides_renewed (st st1 st2 : St) (c : Name) (body : List Piece)
+    (h1 : step st (.renewThe c body) = .ok st1) (h2 : step st1 (.appendix c) = .ok st2) :
+    st2.thes.lookup ("the" ++ c) = some { pieces := [.ref c (some "Alph")], trimLeft := false } := by
+  simp only [step, Except.ok.injEq] at h1 h2
+  subst h1; subst h2
+  simp
+
+/-- `\setcounter{n}{\value{m}}` copies the current value of `m` into `n` and changes nothing else. -/
+theorem value_is_copied (st st' : St) (n m : Name) (h : step st (.setcv n m) = .ok st') :
+    val st'.store n = some (valD st.store m) ∧ ∀ x, x ≠ n → valD st'.store x = valD st.store x := by
+  simp only [step, Except.ok.injEq] at h; subst h
+  refine ⟨by simp [PlasVerif.Proofs.EnumLists.val_setc], fun x hx => ?_⟩
+  simp only [valD, PlasVerif.Proofs.EnumLists.val_setc, hx, if_false, PlasVerif.Proofs.EnumLists.val_ensure]
+  cases hv : val st.store x with
+  | some v => rfl
+  | none => by_cases hxm : x = m <;> simp [hxm]
+
+/-- The `--counter n v` option ("initial value"): the first object of an existing counter `n` is numbered `v`. -/
+theorem initial_counter_option (st st1 st2 : St) (n : Name) (v w : Int) (tag : String) (level : Int)
+    (hn : n ≠ "") (hex : val st.store n = some w) (hacyc : ¬ Within (skel st.store) n n)
+    (h1 : step st (.initc n v) = .ok st1) (h2 : step st1 (.construct tag n false level) = .ok st2) :
+    val st2.store n = some v := by
+  simp only [step, Except.ok.injEq] at h1; subst h1
+  obtain ⟨s, hs, hcap⟩ := construct_ok _ st2 tag n level hn h2
+  have hst : st2.store = s := capture_store _ _ _ _ _ hcap
+  have he : ensure st.store n = st.store := by simp [ensure, hex]
+  have hv : val (setc st.store n (v - 1)) n = some (v - 1) := by simp [PlasVerif.Proofs.EnumLists.val_setc]
+  have hsk : skel (setc st.store n (v - 1)) = skel st.store := by
+    rw [PlasVerif.Proofs.EnumLists.skel_setc, he]
+  have := (step_resets_exactly _ s n (v - 1) hv hs).2.2.2 (by rw [hsk]; exact hacyc)
+  rw [hst, this]; congr 1; omega
+
+example : ((run (initSt bookCounters bookThes 2) [.initc "chapter" 5, .construct "chapter" "chapter" false 0,
+      .construct "section" "section" false 1]).toOption.map (·.outs.reverse.map (·.ref))) =
+    some [some "5", some "5.1"] := by decide +kernel
+
+/-- Known finding `roman-chapter-zero-float` (kernel-checked on the witness): with `\thechapter` redefined as
+    `\Roman{chapter}` and no chapter yet, the model - like the code - prints `.1` for the first figure, where LaTeX's
+    rule (the oracle `lrun`) prints `1`. -/
+theorem known_roman_chapter_zero_float :
+    ((run (initSt bookCounters bookThes 2) [.renewThe "chapter" [.call "Roman" "chapter"],
+        .construct "caption" "figure" false 1001]).toOption.map (·.outs.map (·.ref))) = some [some ".1"] ∧
+    ((lrun (linit .book 2) [.renewThe "chapter" [.call "Roman" "chapter"],
+        .construct "caption" "figure" false 1001]).map (·.outs.map (·.ref))) = some [some "1"] := by
+  decide +kernel
 
 /-! ## lists -/
 
